@@ -548,7 +548,7 @@ pub fn worker_main(args: &J) -> i32 {
     0
 }
 
-fn write_stats(path: &str, st: &Stats, next_unit: u64) {
+pub fn write_stats(path: &str, st: &Stats, next_unit: u64) {
     let j = json!({
         "next_unit": next_unit,
         "states": st.states, "transitions": st.transitions, "evaluations": st.evaluations,
@@ -564,7 +564,7 @@ fn write_stats(path: &str, st: &Stats, next_unit: u64) {
     }
 }
 
-fn read_stats(path: &str) -> Option<(Stats, u64)> {
+pub fn read_stats(path: &str) -> Option<(Stats, u64)> {
     let j: J = serde_json::from_str(&std::fs::read_to_string(path).ok()?).ok()?;
     let mut st = Stats::default();
     st.states = j["states"].as_u64()?;
